@@ -69,6 +69,10 @@ def l2_monitor(spec, rec, obs):
                        "(WorkflowTimeoutError)" % (early[0]["step"], early[0]["t"] - t0_, spec["timeout"]))
     if obs.done and obs.exception is None and spec.get("mode") == "stop_race_slow_unwind":
         facts["finished_during_slow_unwind"] = 1
+        t0_ = rec.log[0]["t"]
+        if any(r["kind"] == "return" and "Stop" in r["ev"] and 0 < spec["timeout"] - (r["t"] - t0_) < 0.5 for r in rec.log):
+            # (the engine's wait for the siblings to unwind, at most 0.5 s, straddled the deadline)
+            facts["deadline_passed_while_siblings_unwound"] = 1
     if obs.done and isinstance(obs.exception, WorkflowTimeoutError):
         facts["timed_out"] = 1
         ev = [e for e in obs.stream if isinstance(e, WorkflowTimedOutEvent)]
@@ -286,7 +290,8 @@ def run(ctx):
     ctx.prove()
     run_l1(ctx, ctx.n(120, 4000), l1_monitor, THEOREMS, need=("tick_TickCancelRun", "tick_TickTimeout"))
     fails, facts = run_l2(ctx, [S.exits_tc], ctx.n(160, 5000), l2_monitor,
-                          need=(("timed_out", 10), ("cancelled", 10), ("finished_before_timeout", 3)))
+                          need=(("timed_out", 10), ("cancelled", 10), ("finished_before_timeout", 3),
+                                ("deadline_passed_while_siblings_unwound", 2)))
     rng = random.Random(ctx.seed * 43 + 7)
     nres, resumed, rf = ctx.n(80, 2000), 0, []
     for i in range(nres):
